@@ -31,6 +31,10 @@ const SILENCE: u32 = 100;
 /// Fault kind "the peer stops reading": the transport's `send` never completes from some point on. The client cannot
 /// know; what must still hold is that no call, batch or subscribe stays pending beyond its request timeout.
 const SEND_HANG: u32 = 101;
+/// Two faults at once: a send that never completes and, while it hangs, a receive error. The connection has failed
+/// and the client has been told (by `receive()`): everything the property says about a receive error applies, stuck
+/// send or not.
+const SEND_HANG_AND_RECV_ERROR: u32 = 102;
 
 pub fn poison(k: u32, id_str: bool) -> InItem {
 	let t = |s: &str| InItem::Text(s.to_string());
@@ -75,6 +79,7 @@ fn describe_fault(kind: u32) -> String {
 		2 => "peer-close".into(),
 		SILENCE => "peer-silent".into(),
 		SEND_HANG => "send-hangs".into(),
+		SEND_HANG_AND_RECV_ERROR => "send-hangs+recv-error".into(),
 		k => format!("poison-{}", k - 3),
 	}
 }
@@ -124,7 +129,7 @@ pub async fn scenario() {
 	} else {
 		let kind = match rt::draw("fault_class", 5) {
 			_ if ping_mode && rt::chance("silence", 1, 2) => SILENCE,
-			4 => *rt::pick("quiet_fault", &[SILENCE, SEND_HANG]),
+			4 => *rt::pick("quiet_fault", &[SILENCE, SEND_HANG, SEND_HANG_AND_RECV_ERROR]),
 			0 => 0,
 			1 => rt::draw_range("tf", 1, 2),
 			_ => 3 + rt::draw("poison", N_POISON),
@@ -146,6 +151,7 @@ pub async fn scenario() {
 				2 => Fault::Recv { item: InItem::Err("injected: connection closed by peer".into()), front },
 				SILENCE => Fault::Silence,
 				SEND_HANG => Fault::SendHang,
+				SEND_HANG_AND_RECV_ERROR => Fault::SendHangThenRecv(InItem::Err("injected receive error".into())),
 				k => Fault::Recv { item: poison(k - 3, id_str), front },
 			});
 		}
@@ -279,7 +285,7 @@ pub async fn scenario() {
 		_ => {}
 	}
 	early_watcher.abort();
-	check(&wire, &ops.lock().unwrap(), &peer_log.lock().unwrap(), kind, connected, on_disc, first_phase, presub && consumer.is_some(), &consumer_ended.lock().unwrap());
+	check(&wire, &ops.lock().unwrap(), &peer_log.lock().unwrap(), kind, connected, on_disc, first_phase, presub && consumer.is_some(), &consumer_ended.lock().unwrap(), ping_mode);
 	if sweep_base {
 		rt::probe_n("seam_events", wire.lock().seam_count);
 	}
@@ -318,10 +324,11 @@ fn check(
 	first_phase: usize,
 	has_consumer: bool,
 	consumer_ended: &Option<(u64, String)>,
+	ping_mode: bool,
 ) {
 	let w = wire.lock();
 	let fault_name = kind.map(describe_fault).unwrap_or_else(|| "none".into());
-	let transport_fault = matches!(kind, Some(0..=2));
+	let transport_fault = matches!(kind, Some(0..=2) | Some(SEND_HANG_AND_RECV_ERROR));
 	let silence = kind == Some(SILENCE);
 	let fired = w.fault_fired_stamp;
 	// did the client get to see the fault?
@@ -333,7 +340,7 @@ fn check(
 		Some(_) => fired.and_then(|_| {
 			// the fault item is the one pushed without a peer-push event: find a delivered item that equals it
 			w.delivered.iter().find(|(_, _, it)| match (it, kind) {
-				(InItem::Err(e), Some(1)) => e.contains("injected receive error"),
+				(InItem::Err(e), Some(1 | SEND_HANG_AND_RECV_ERROR)) => e.contains("injected receive error"),
 				(InItem::Err(e), Some(2)) => e.contains("closed by peer"),
 				(it, Some(k)) if k >= 3 => format!("{it:?}") == format!("{:?}", poison(k - 3, false)) || format!("{it:?}") == format!("{:?}", poison(k - 3, true)),
 				_ => false,
@@ -404,7 +411,10 @@ fn check(
 				if transport_fault && !e.contains("injected") {
 					rt::violate(P, "wrong-cause", format!("{what}:{phase}:{fault_name}"), format!("op {:?} failed with {e}, which does not carry the injected transport fault", op.nonces));
 				}
-				if kind.is_none() || kind == Some(SEND_HANG) {
+				// (with pings on, a send that never completes keeps the pings from going out as well: the client then gives
+				// up for inactivity, which is a legitimate end of a connection whose peer has stopped reading)
+				let inactivity_after_hang = kind == Some(SEND_HANG) && ping_mode && e.contains("ping/pong inactive");
+				if (kind.is_none() || kind == Some(SEND_HANG)) && !inactivity_after_hang {
 					rt::violate(P, "spurious-disconnect", format!("{what}:{phase}"), format!("op {:?} failed with {e} although no fault was injected and the peer behaved", op.nonces));
 				}
 			} else if transport_fault || silence || kind.is_none() {
@@ -438,7 +448,7 @@ fn check(
 		}
 		// late operations after a noticed transport fault must fail
 		// (registering a notification handler involves no connection: it may still succeed while the client shuts down)
-		if late && (transport_fault || silence) && noticed.is_some_and(|n| n < *inv_stamp) && !matches!(op.outcome, Outcome::Handler(_)) {
+		if late && (transport_fault || silence) && noticed.is_some_and(|n| n < *inv_stamp) && !matches!(op.outcome, Outcome::Handler(_) | Outcome::Cancelled) {
 			let failed = matches!(&op.outcome, Outcome::Call(Err(_), None) | Outcome::Sub(Err(_), None) | Outcome::Batch(Err(_)) | Outcome::Notif(Err(_)) | Outcome::Handler(Err(_)));
 			if !failed {
 				rt::violate(P, "late-op-not-failed", format!("{what}:{fault_name}"), format!("op {:?} issued after the connection failed did not fail: {:?}", op.nonces, op.outcome));
@@ -481,6 +491,7 @@ fn check(
 		rt::probe(match kind {
 			Some(0) => "noticed.send_error",
 			Some(1) => "noticed.recv_error",
+			Some(SEND_HANG_AND_RECV_ERROR) => "noticed.recv_error_while_send_hangs",
 			Some(2) => "noticed.peer_close",
 			Some(SILENCE) => "noticed.silence",
 			_ => "noticed.poison",
